@@ -29,6 +29,9 @@ def demo_packages(demo_dir):
     return sorted(pk)
 
 
+RACE = False
+
+
 def run_demo(wt, demo_dir):
     copied = []
     for root, _d, files in os.walk(demo_dir):
@@ -49,7 +52,7 @@ def run_demo(wt, demo_dir):
                         if line.startswith("func Test") and "(" in line:
                             names.append(line[len("func "):line.index("(")])
         pat = "^(" + "|".join(sorted(set(names))) + ")$" if names else "."
-        rc, out = sh(["go", "test", "-vet=off", "-count=1", "-run", pat] + pkgs, cwd=wt)
+        rc, out = sh(["go", "test", "-vet=off", "-count=1"] + (["-race"] if RACE else []) + ["-run", pat] + pkgs, cwd=wt)
     else:
         rc, out = sh("go run " + " ".join(mains or pkgs), cwd=wt)
     for c in copied:
@@ -61,6 +64,8 @@ def run_demo(wt, demo_dir):
 
 
 def confirm(src, seed_id, prop):
+    global RACE
+    RACE = prop == "C20"
     wt = "/tmp/seedeval-wt"
     if os.path.exists(wt):
         sh(["git", "-C", REPO, "worktree", "remove", "--force", wt])
